@@ -581,6 +581,11 @@ impl Memfs {
         // Convert relative links to absolute to ensure they are clean
         let target = self._abs(guard, if !target.is_absolute() { link.dir()?.mash(target) } else { target })?;
 
+        // A link is only ever created, an existing one is not silently kept
+        if guard.contains_entry(&link) {
+            return Err(PathError::exists_already(link).into());
+        }
+
         // Create the new entry as a link and set its target as a file by default
         let mut entry_opts = MemfsEntry::opts(&link).file().link_to(&target)?;
 
